@@ -387,6 +387,9 @@ func emit(p *Prop, pr *PropResult, rr *RunResult, kf []knownFinding, tier string
 			samples = append(samples, map[string]interface{}{"rule": o.Rule, "construct": o.Construct, "obligation": o.Desc, "verdict": st, "pos": o.Pos, "detail": o.Detail})
 		}
 	}
+	if f := minOblFloor[p.ID]; f > p.MinObl {
+		p.MinObl = f
+	}
 	if len(pr.Obligations) < p.MinObl && broken == "" {
 		broken = fmt.Sprintf("only %d obligations evaluated, %d confirmed by hand: rule tables no longer match the code", len(pr.Obligations), p.MinObl)
 	}
